@@ -384,6 +384,25 @@ func run(c *h.Ctx, cs Case) {
 		if nd+ni != len(want) {
 			c.Fail("C17/honest-type-partition", "%d delegations + %d invocations != %d tokens", nd, ni, len(want))
 		}
+		// GetInvocation: THE invocation of a container that holds exactly one; an error otherwise
+		gi, gerr := rd.GetInvocation()
+		switch {
+		case ni == 1 && (gerr != nil || gi == nil):
+			c.Fail("C17/honest-getinvocation", "container with exactly one invocation: GetInvocation fails: %v", gerr)
+		case ni == 1:
+			found := false
+			for _, s := range sealed {
+				if s.d.Inv != nil {
+					v, _ := tok.ViewOf(gi)
+					found = found || tok.Diff(s.view, v) == ""
+				}
+			}
+			if !found {
+				c.Fail("C17/honest-getinvocation", "GetInvocation returned an invocation that was not put in")
+			}
+		case ni != 1 && gerr == nil:
+			c.Fail("C17/honest-getinvocation", "container with %d invocations: GetInvocation returned one without error", ni)
+		}
 	} else {
 		c.P.Class("corr:" + corr.Kind)
 		if rerr == nil {
